@@ -14,8 +14,7 @@ def check(acc, spec, L, limits=LIMITS, stack=('x', 'y'), eps='_', big=False, mor
     from gambatools.global_settings import GambaTools
     rp = {'fn': 'mc.props.c09:one', 'mode': 'plain', 'params': {'spec': spec, 'L': L, 'limits': list(limits), 'stack': list(stack), 'eps': eps, 'big': big}}
     if morph:
-        rp = {'fn': 'mc.props.c09:one_morph', 'mode': 'plain', 'params': {'prev': acc.data.get('prev'), 'spec': spec, 'L': L, 'limits': list(limits), 'stack': list(stack), 'eps': eps}}
-        acc.data['prev'] = spec
+        rp = {'fn': 'mc.props.c09:t_space', 'mode': 'plain', 'params': dict(acc.data.get('ctx', {}), upto=spec)}
     R = pda.ref(spec, stack)
     ok, P = core.lib_call(acc, 'PDA()', {'pda': spec}, pda.morph if morph else pda.build, spec, stack, 's', eps, repro=rp)
     if not ok:
@@ -69,20 +68,17 @@ def one(acc, spec, L, limits, stack, eps, big=False):
     check(acc, tup(spec), L, tuple(limits), tuple(stack), eps, big)
 
 
-def one_morph(acc, prev, spec, L, limits, stack, eps):
-    pda._LIVE.clear()
-    for s_ in (prev, spec):
-        if s_ is not None:
-            check(acc, tup(s_), L, tuple(limits), tuple(stack), eps, morph=True)
-    acc.data.clear()
-
-
-def t_space(acc, n, k, g, t, L, shard, nshard, stride=1, offset=0, limits=LIMITS, stack=('x', 'y'), eps='_', tmin=0, morph=False):
+def t_space(acc, n, k, g, t, L, shard, nshard, stride=1, offset=0, limits=LIMITS, stack=('x', 'y'), eps='_', tmin=0, morph=False, upto=None):
+    upto = tup(upto) if upto is not None else None
     if morph:
         pda._LIVE.clear()
+        acc.data['ctx'] = {'n': n, 'k': k, 'g': g, 't': t, 'L': L, 'shard': shard, 'nshard': nshard, 'stride': stride, 'offset': offset, 'limits': list(limits),
+                           'stack': list(stack), 'eps': eps, 'tmin': tmin, 'morph': True}
     for idx, spec in pda.pdas(n, k, g, t, tmin=tmin):
         if idx % stride == offset % stride and (idx // stride) % nshard == shard:
             check(acc, spec, L, tuple(limits), tuple(stack), eps, morph=morph)
+            if upto is not None and spec == upto:
+                break
     acc.data.clear()
 
 
